@@ -10,7 +10,7 @@ cd "$(dirname "$0")/.."
 ids=${@:-$(ls seeded)}
 for id in $ids; do
   prop=$(python3 -c "import json;print(json.load(open('seeded/$id/meta.json'))['property'])")
-  git -C $R checkout -q -- . ; git -C $R apply seeded/$id/patch.diff || { echo "SEED $id: patch does not apply"; continue; }
+  git -C $R checkout -q -- . ; git -C $R apply "$PWD/seeded/$id/patch.diff" || { echo "SEED $id: patch does not apply"; continue; }
   out=$(VERIF_SEED=${VERIF_SEED:-1} ./check $prop --tier ${TIER:-quick} 2>&1 | grep -v "^KNOWN-FINDING")
   v=$(echo "$out" | grep -c "^VIOLATION")
   echo "SEED $id ($prop): violation_lines=$v :: $(echo "$out" | tail -2 | tr '\n' ' ')"
